@@ -4,11 +4,13 @@ CONSTANTS
   N = 4
   Byz <- NoByz
   Nodes <- Obs1
-  Blk0 <- T4
+  Blk0s <- ST4
   MaxBlocks = 11
   MaxRestarts = 1
   ByzMode = "branch"
   ByzRanges <- R123
+  Runs = FALSE
+  BadKinds <- OnlyOk
   Fixes <- NoFix
 VIEW view
 PROPERTIES Final
